@@ -382,15 +382,20 @@ func ruleDeadlineDirection(c *Ctx, r *R) {
 				if !ok {
 					continue
 				}
+				// (in a helper frame - chans.RecvContext(ctx, timer.C) - the error is the helper's last result)
+				ei := len(ret.Results) - 1
+				if ei < 0 {
+					continue
+				}
 				switch a.kind {
 				case "ctx-done":
 					okE := false
-					if call, ok := returnedValue(ret, 0).(*ssa.Call); ok && call.Call.IsInvoke() && call.Call.Method.Name() == "Err" && isParamOf(call.Call.Value, fr.chain, ctxP) {
+					if call, ok := returnedValue(ret, ei).(*ssa.Call); ok && call.Call.IsInvoke() && call.Call.Method.Name() == "Err" && isParamOf(call.Call.Value, fr.chain, ctxP) {
 						okE = true
 					}
 					r.ok(okE, "xtime.SleepContext|ctx-arm-returns-err", retPos(ret), "the ctx.Done() arm must return ctx.Err()")
 				default:
-					r.ok(isNilConst(returnedValue(ret, 0)), "xtime.SleepContext|timer-arm-returns-nil", retPos(ret), "nil may be returned only from the arm in which the d-timer fired")
+					r.ok(isNilConst(returnedValue(ret, ei)), "xtime.SleepContext|timer-arm-returns-nil", retPos(ret), "nil may be returned only from the arm in which the d-timer fired")
 				}
 			}
 		}
